@@ -127,9 +127,9 @@ func init() {
 			r := c.Roles(ob0)
 			obApplyPostings(c, "C09.1", r)
 			ob2 := c.R.Ob("C09.2", "ctrl/reset", "pending lists are reset per statement before any push and have no other writer; the current asset is assigned before use", 4)
-			var disp, fetch *ssa.Function
+			var disp, fetch, onDemand *ssa.Function
 			if ir := c.IRoles(ob2); ir != nil {
-				disp, fetch = ir.Dispatcher, ir.Fetch
+				disp, fetch, onDemand = ir.Dispatcher, ir.Fetch, ir.OnDemand
 			}
 			c.ResetBeforePush(ob2, r, disp)
 			c.AssetAssignedBeforeUse(ob2, r)
@@ -139,7 +139,7 @@ func init() {
 			ob4 := c.R.Ob("C09.4", "ctrl/fetch-once", "balances are fetched before the first statement and never while statements run", 2)
 			c.NoFetchFromRunners(ob4, disp, c.P.Named(relInterp, "Store"), "GetBalances")
 			run := c.Fn(ob4, relInterp, "RunProgram")
-			c.CallOrder(ob4, "order:RunProgram:statements-after-fetch", run, sameFn(fetch), sameFn(disp), "statements run only after the balances were fetched")
+			c.CallOrder(ob4, "order:RunProgram:statements-after-fetch", run, reachesAvoiding(c, fetch, onDemand), reachesFn(c, disp), "statements run only after the balances were fetched")
 			obCacheMergeOnly(c, "C09.4b")
 			obBatchAlways(c, "C09.4c")
 			obSaveMonotone(c, "C09.5", r)
